@@ -11,6 +11,16 @@
 //!                               native), 1 = one coin "ujunk", 2 = none, 3 = two coins (asset denom + ujunk)
 //!   wfake <who> <amt>           cw20 `Send` of the vault ASSET token (cw20 asset) carrying the Withdraw hook
 //!   xafter <who> <old> <loan>   ExecuteMsg::Callback(AfterTrade{old_balance, loan_amount}) by an ordinary account
+//!
+//! STRAY COINS. Every op that is an execute message of the vault or the router (deposit, collect, setfees,
+//! toggles, loan, rloan, rloan0, rloan2, xnext, xcomplete, xafter) may end in a token `+<sel>:<amount>`:
+//! the sender of the message attaches `amount` (> 0) coins the message does not ask for — sel 0 = the vault
+//! asset's own native denom `uasset` (nobody holds such a coin when the asset is a cw20), sel 1 = the
+//! unrelated denom `ujunk` (accounts 0..3 and the owner hold 2^100). Senders: deposit / router ops / xafter
+//! their `who` (3 = the borrower contract, which attaches the coins to the message it sends), collect bob (1),
+//! setfees / toggles the owner, loan the borrower contract. Coins of the asset's denom attached to a native
+//! vault's Deposit are merged with the deposit's own coin (one coin per denom, as a chain would).
+//! Observation key `junk=` lists the `ujunk` balances of accounts 0..5, the owner and the vault.
 use crate::common::*;
 use cosmwasm_std::{
     coin, coins, to_json_binary, Addr, BankMsg, Binary, Coin, CosmosMsg, Decimal, Empty, Response, StdError, Uint128,
@@ -332,14 +342,16 @@ pub struct Obs {
     pub pb: u128,
     pub tog: (bool, bool, bool),
     pub fees: (u128, u128, u128),
+    /// `ujunk` balances: accounts 0..5, the owner, the vault
+    pub junk: Vec<u128>,
 }
 impl Obs {
     fn show(&self) -> String {
         let j = |v: &Vec<u128>| v.iter().map(|x| x.to_string()).collect::<Vec<_>>().join(",");
         format!(
-            "bal={} pend={} all={} burned={} sup={} lpv={} ctr={} ab={} lb={} asup={} share={} pb={} tog={}{}{} fees={},{},{}",
+            "bal={} pend={} all={} burned={} sup={} lpv={} ctr={} ab={} lb={} asup={} share={} pb={} tog={}{}{} fees={},{},{} junk={}",
             self.bal, self.pend, self.all, self.burned, self.sup, self.lpv, self.ctr, j(&self.ab), j(&self.lb), self.asup, self.share, self.pb,
-            self.tog.0 as u8, self.tog.1 as u8, self.tog.2 as u8, self.fees.0, self.fees.1, self.fees.2
+            self.tog.0 as u8, self.tog.1 as u8, self.tog.2 as u8, self.fees.0, self.fees.1, self.fees.2, j(&self.junk)
         )
     }
 }
@@ -361,6 +373,24 @@ pub struct World {
     burned_sum: u128,
     first_deposit_done: bool,
     last_deposit: Option<(usize, u128, u128)>, // who, amount, minted
+}
+
+/// stray coins attached to a message: (selector, amount); selector 0 = the vault asset's native denom, 1 = `ujunk`
+pub type Stray = Option<(u8, u128)>;
+/// the ops that are execute messages of the vault / the router sent by an account of the harness
+const STRAY_OPS: [&str; 11] = ["deposit", "collect", "setfees", "toggles", "loan", "rloan", "rloan0", "rloan2", "xnext", "xcomplete", "xafter"];
+/// index of the owner / the vault in `Obs::junk`
+const J_OWNER: usize = 6;
+const J_VAULT: usize = 7;
+
+/// `+<sel>:<amount>`
+pub fn parse_stray(t: &str) -> Option<(u8, u128)> {
+    let (a, b) = t.strip_prefix('+')?.split_once(':')?;
+    let (sel, n): (u8, u128) = (a.parse().ok()?, b.parse().ok()?);
+    if sel > 1 || n == 0 || !a.bytes().all(|c| c.is_ascii_digit()) || !b.bytes().all(|c| c.is_ascii_digit()) {
+        return None;
+    }
+    Some((sel, n))
 }
 
 #[derive(Default)]
@@ -415,7 +445,7 @@ impl World {
             )
             .unwrap();
         accts[ROUTER] = router.clone();
-        for a in accts[..4].iter() {
+        for a in accts[..4].iter().chain(std::iter::once(&owner)) {
             app.sudo(cw_multi_test::SudoMsg::Bank(cw_multi_test::BankSudo::Mint { to_address: a.to_string(), amount: coins(1u128 << 100, JUNK) }))
                 .unwrap();
         }
@@ -572,6 +602,12 @@ impl World {
             asup,
             share,
             pb: pb.payback_amount.u128(),
+            junk: self
+                .accts
+                .iter()
+                .chain([&self.owner, &self.vault])
+                .map(|a| q.query_balance(a, JUNK).unwrap().amount.u128())
+                .collect(),
         }
     }
 
@@ -732,12 +768,15 @@ impl World {
     }
 
     /// execute `msg` on the router as account `who` (0..2 directly, 3 = the borrower contract via `Run`)
-    fn call_router(&mut self, who: usize, msg: &rmsg::ExecuteMsg) -> bool {
+    fn call_router(&mut self, who: usize, msg: &rmsg::ExecuteMsg, funds: &[Coin]) -> bool {
         let r = if who < 3 {
             let (a, r) = (self.accts[who].clone(), self.router.clone());
-            guarded(|| self.app.execute_contract(a, r, msg, &[]))
+            guarded(|| self.app.execute_contract(a, r, msg, funds))
         } else {
-            let run = AdvMsg::Run { msgs: vec![self.wasm(&self.router, to_json_binary(msg).unwrap())] };
+            // the borrower contract attaches the coins (its own) to the message it sends
+            let inner: CosmosMsg =
+                WasmMsg::Execute { contract_addr: self.router.to_string(), msg: to_json_binary(msg).unwrap(), funds: funds.to_vec() }.into();
+            let run = AdvMsg::Run { msgs: vec![inner] };
             let (a, adv) = (self.accts[0].clone(), self.adv.clone());
             guarded(|| self.app.execute_contract(a, adv, &run, &[]))
         };
@@ -749,11 +788,16 @@ impl World {
     }
 
     fn loan_msg(&self, n: u128, cb: &[Act]) -> CosmosMsg {
+        self.loan_msg_with(n, cb, vec![])
+    }
+
+    /// the borrower contract's FlashLoan message, with coins (its own) attached
+    fn loan_msg_with(&self, n: u128, cb: &[Act], funds: Vec<Coin>) -> CosmosMsg {
         let inner = AdvMsg::Run { msgs: self.acts_to_msgs(cb) };
         WasmMsg::Execute {
             contract_addr: self.vault.to_string(),
             msg: to_json_binary(&vmsg::ExecuteMsg::FlashLoan { amount: n.into(), msg: to_json_binary(&inner).unwrap() }).unwrap(),
-            funds: vec![],
+            funds,
         }
         .into()
     }
@@ -769,12 +813,21 @@ fn fee_of(share: u128, amt: u128) -> u128 {
 }
 
 impl VaultEngine {
-    fn exec_op(&mut self, ws: &[&str], mon: &mut Monitor) -> Result<bool, ()> {
+    fn exec_op(&mut self, ws: &[&str], stray: Stray, mon: &mut Monitor) -> Result<bool, ()> {
         // returns Ok(success) ; Err(()) = bad op line
         let w = self.w.as_mut().ok_or(())?;
         let before = self.last.clone();
         let nums = |from: usize| -> Option<Vec<u128>> { parse_u128s(&ws[from..]) };
         let ok: bool;
+        if stray.is_some() && !STRAY_OPS.contains(&ws[0]) {
+            return Err(());
+        }
+        // the coins attached to the message on top of what it asks for
+        let extra: Vec<Coin> = match stray {
+            Some((0, n)) => coins(n, DENOM),
+            Some((_, n)) => coins(n, JUNK),
+            None => vec![],
+        };
         match ws[0] {
             "deposit" => {
                 let a = nums(1).ok_or(())?;
@@ -795,7 +848,12 @@ impl VaultEngine {
                             )
                             .map_err(|e| e.to_string())?;
                     }
-                    let funds = if w.kind == 0 && sent > 0 { coins(sent, DENOM) } else { vec![] };
+                    let mut funds = if w.kind == 0 && sent > 0 { coins(sent, DENOM) } else { vec![] };
+                    match stray {
+                        // one coin per denom: stray coins of the asset's denom join the deposit's own coin
+                        Some((0, n)) if w.kind == 0 => funds = coins(sent + n, DENOM),
+                        _ => funds.extend(extra.iter().cloned()),
+                    }
                     let r = w
                         .app
                         .execute_contract(who.clone(), w.vault.clone(), &vmsg::ExecuteMsg::Deposit { amount: amount.into() }, &funds)
@@ -852,7 +910,7 @@ impl VaultEngine {
                 }
             }
             "collect" => {
-                let r = guarded(|| w.app.execute_contract(w.accts[1].clone(), w.vault.clone(), &vmsg::ExecuteMsg::CollectProtocolFees {}, &[]));
+                let r = guarded(|| w.app.execute_contract(w.accts[1].clone(), w.vault.clone(), &vmsg::ExecuteMsg::CollectProtocolFees {}, &extra));
                 ok = matches!(r, Outcome::Ok(_));
             }
             "setfees" => {
@@ -876,7 +934,7 @@ impl VaultEngine {
                                 burn_fee: Fee { share: Decimal::raw(a[2]) },
                             }),
                         }),
-                        &[],
+                        &extra,
                     )
                 });
                 ok = matches!(r, Outcome::Ok(_));
@@ -901,7 +959,7 @@ impl VaultEngine {
                             new_fee_collector_addr: None,
                             new_vault_fees: None,
                         }),
-                        &[],
+                        &extra,
                     )
                 });
                 ok = matches!(r, Outcome::Ok(_));
@@ -912,7 +970,7 @@ impl VaultEngine {
                 }
                 let n: u128 = ws[1].parse().map_err(|_| ())?;
                 let cb = parse_acts(ws[2]).ok_or(())?;
-                let msg = AdvMsg::Run { msgs: vec![w.loan_msg(n, &cb)] };
+                let msg = AdvMsg::Run { msgs: vec![w.loan_msg_with(n, &cb, extra.clone())] };
                 let r = guarded(|| w.app.execute_contract(w.accts[0].clone(), w.adv.clone(), &msg, &[]));
                 ok = matches!(r, Outcome::Ok(_));
             }
@@ -938,7 +996,7 @@ impl VaultEngine {
                     return Err(());
                 }
                 let msg = w.router_loan_msg(vec![w.asset(n)], &pl);
-                ok = w.call_router(i, &msg);
+                ok = w.call_router(i, &msg, &extra);
             }
             "rloan0" => {
                 if ws.len() != 3 {
@@ -950,7 +1008,7 @@ impl VaultEngine {
                     return Err(());
                 }
                 let msg = w.router_loan_msg(vec![], &pl);
-                ok = w.call_router(i, &msg);
+                ok = w.call_router(i, &msg, &extra);
             }
             "rloan2" => {
                 if ws.len() != 5 {
@@ -964,7 +1022,7 @@ impl VaultEngine {
                     return Err(());
                 }
                 let msg = w.router_loan_msg(vec![w.asset(a1), w.asset(a2)], &pl);
-                ok = w.call_router(i, &msg);
+                ok = w.call_router(i, &msg, &extra);
             }
             "rfund" => {
                 let a = nums(1).ok_or(())?;
@@ -1000,7 +1058,7 @@ impl VaultEngine {
                     to_loan: vec![],
                     loaned_assets: vec![(w.vault.to_string(), w.asset(n))],
                 };
-                ok = w.call_router(i, &msg);
+                ok = w.call_router(i, &msg, &extra);
             }
             "xcomplete" => {
                 // a stranger calls the router's CompleteLoan directly
@@ -1012,7 +1070,7 @@ impl VaultEngine {
                     initiator: w.accts[a[1] as usize].clone(),
                     loaned_assets: vec![(w.vault.to_string(), w.asset(a[2]))],
                 };
-                ok = w.call_router(a[0] as usize, &msg);
+                ok = w.call_router(a[0] as usize, &msg, &extra);
             }
             "wdirect" => {
                 let a = nums(1).ok_or(())?;
@@ -1060,7 +1118,7 @@ impl VaultEngine {
                 }
                 let who = w.accts[a[0] as usize].clone();
                 let msg = vmsg::ExecuteMsg::Callback(vmsg::CallbackMsg::AfterTrade { old_balance: a[1].into(), loan_amount: a[2].into() });
-                let r = guarded(|| w.app.execute_contract(who.clone(), w.vault.clone(), &msg, &[]));
+                let r = guarded(|| w.app.execute_contract(who.clone(), w.vault.clone(), &msg, &extra));
                 ok = matches!(r, Outcome::Ok(_));
             }
             _ => return Err(()),
@@ -1068,10 +1126,36 @@ impl VaultEngine {
         Ok(ok)
     }
 
-    fn monitors(&mut self, ws: &[&str], ok: bool, before: &Obs, after: &Obs, mon: &mut Monitor) {
+    fn monitors(&mut self, ws: &[&str], stray: Stray, ok: bool, before: &Obs, after: &Obs, mon: &mut Monitor) {
         let w = self.w.as_mut().unwrap();
-        let line = ws.join(" ");
+        let line = match stray {
+            Some((sel, n)) => format!("{} +{sel}:{n}", ws.join(" ")),
+            None => ws.join(" "),
+        };
         let ctx = |what: &str| format!("{what}: op `{line}` before [{}] after [{}]", before.show(), after.show());
+        // ---- coins attached to the message on top of what it asks for: who pays, which contract receives
+        let (a_own, a_junk) = match stray {
+            Some((0, n)) => (n, 0),
+            Some((_, n)) => (0, n),
+            None => (0, 0),
+        };
+        let sender: usize = match ws[0] {
+            "deposit" | "rloan" | "rloan0" | "rloan2" | "xnext" | "xcomplete" | "xafter" => ws[1].parse().unwrap_or(0),
+            "collect" => 1,
+            "setfees" | "toggles" => J_OWNER,
+            "loan" => 3,
+            _ => 0,
+        };
+        let to_router = matches!(ws[0], "rloan" | "rloan0" | "rloan2" | "xnext" | "xcomplete");
+        let kind = w.kind;
+        // what the sender holds of the asset (the owner holds none); coins of the asset's denom exist only for a native asset
+        let sender_has = |a: u128| (a == 0 || (kind == 0 && sender < 4 && before.ab[sender] >= a)) && before.junk[sender] >= a_junk;
+        if let Some((sel, _)) = stray {
+            mon.stat(&format!("stray_{}_{}_{}", ws[0], if sel == 0 { "asset_denom" } else { "junk" }, if ok { "ok" } else { "err" }));
+            if sel == 0 && kind == 1 {
+                mon.stat("stray_asset_denom_on_cw20_vault");
+            }
+        }
         // ---- every op
         if ws[0] == "loan" {
             // payback exactness: a callback that only repays X succeeds iff X >= quoted payback
@@ -1079,7 +1163,8 @@ impl VaultEngine {
                 if let [Act::Pay(x)] = cb[..] {
                     let n: u128 = ws[1].parse().unwrap();
                     let pb = n + fee_of(before.fees.0, n) + fee_of(before.fees.1, n) + fee_of(before.fees.2, n);
-                    let pre = before.tog.2 && n > 0 && n <= before.bal && x > 0 && before.ab[3] + n >= x;
+                    // coins attached to the vault's FlashLoan are a donation: they leave the borrower and cannot repay anything
+                    let pre = before.tog.2 && n > 0 && n <= before.bal && x > 0 && sender_has(a_own) && before.ab[3] - a_own + n >= x;
                     if pre {
                         mon.check("C06", "payback_exact", ok == (x >= pb), || ctx(&format!("repay-only callback with X={x}, quoted payback {pb}")));
                         mon.stat(if x == pb { "payback_at_exact" } else if x + 1 == pb { "payback_one_less" } else { "payback_other" });
@@ -1112,12 +1197,21 @@ impl VaultEngine {
                 if let [RAct::Fund(x)] = pl[..] {
                     let n: u128 = ws[2].parse().unwrap();
                     let pb = n + fee_of(before.fees.0, n) + fee_of(before.fees.1, n) + fee_of(before.fees.2, n);
-                    let pre = before.tog.2 && n > 0 && n <= before.bal && x > 0 && before.ab[3] >= x;
+                    // coins of the asset's denom attached to the router's FlashLoan are the router's during the transaction
+                    let pre = before.tog.2
+                        && n > 0
+                        && n <= before.bal
+                        && x > 0
+                        && sender_has(a_own)
+                        && before.ab[3] >= x + if sender == 3 { a_own } else { 0 };
                     if pre {
-                        let have = before.ab[ROUTER] + n + x;
+                        let have = before.ab[ROUTER] + a_own + n + x;
                         mon.check("C06", "router_payback_exact", ok == (have >= pb), || {
-                            ctx(&format!("fund-only payload: router holds {} + {n} + {x} = {have}, quoted payback {pb}", before.ab[ROUTER]))
+                            ctx(&format!("fund-only payload: router holds {} + {a_own} attached + {n} + {x} = {have}, quoted payback {pb}", before.ab[ROUTER]))
                         });
+                        if a_own > 0 {
+                            mon.stat(if have == pb { "router_payback_at_exact_with_attached" } else if have + 1 == pb { "router_payback_one_less_with_attached" } else { "router_payback_other_with_attached" });
+                        }
                         mon.stat(if have == pb { "router_payback_at_exact" } else if have + 1 == pb { "router_payback_one_less" } else { "router_payback_other" });
                         if before.ab[ROUTER] > 0 {
                             mon.stat("router_payback_prefunded");
@@ -1141,7 +1235,18 @@ impl VaultEngine {
                 mon.check("C06", "vault_callback_guarded", !ok, || ctx("Callback(AfterTrade) accepted from a stranger"));
             }
             "rloan2" => mon.check("C06", "router_multi_asset_refused", !ok, || ctx("router accepted a loan of two assets")),
-            "rloan0" => mon.check("C06", "router_zero_assets_noop", ok && before == after, || ctx("router loan of zero assets did something")),
+            "rloan0" => {
+                // no message is emitted, the payload is not run; coins attached to the call stay with the router
+                let mut exp = before.clone();
+                if ok && stray.is_some() {
+                    exp.ab[sender] = exp.ab[sender].wrapping_sub(a_own);
+                    exp.ab[ROUTER] += a_own;
+                    exp.junk[sender] = exp.junk[sender].wrapping_sub(a_junk);
+                    exp.junk[ROUTER] += a_junk;
+                }
+                let refused_for_funds = !ok && !(sender_has(a_own));
+                mon.check("C06", "router_zero_assets_noop", (ok && *after == exp) || refused_for_funds, || ctx("router loan of zero assets did something"))
+            }
             _ => {}
         }
         if !ok {
@@ -1149,6 +1254,50 @@ impl VaultEngine {
             mon.check("C05", "failed_op_changes_nothing", before == after, || ctx("a failed transaction changed an observable"));
             w.last_deposit = None;
             return;
+        }
+        // ---- the unrelated denom: attached coins land on (and stay with) the contract the message is sent to;
+        // nothing else ever moves them (evaluated on balances, for every successful op)
+        {
+            let mut expj = before.junk.clone();
+            if a_junk > 0 {
+                expj[sender] = expj[sender].wrapping_sub(a_junk);
+                expj[if to_router { ROUTER } else { J_VAULT }] += a_junk;
+            }
+            for p in ["C05", "C06", "C07"] {
+                mon.check(p, "foreign_coins_stay_with_receiver", after.junk == expj, || ctx(&format!("expected ujunk balances {expj:?}")));
+            }
+        }
+        // ---- a vault's reserves and ledgers change only as the op itself allows: messages that do not move the
+        // asset (config changes, a router call without assets, a transfer to the router) leave balance, fee
+        // ledgers, share supply and share balances alone — except that coins of the asset's denom attached to
+        // a vault message are in the vault (a donation), attached to a router message in the router
+        if matches!(ws[0], "setfees" | "toggles" | "rloan0" | "rfund") {
+            let to_vault = if to_router { 0 } else { a_own };
+            let mut exp = before.ab.clone();
+            if a_own > 0 {
+                if sender < 6 {
+                    exp[sender] = exp[sender].wrapping_sub(a_own);
+                }
+                if to_router {
+                    exp[ROUTER] += a_own;
+                }
+            }
+            if ws[0] == "rfund" {
+                let (who, n): (usize, u128) = (ws[1].parse().unwrap(), ws[2].parse().unwrap());
+                exp[who] -= n;
+                exp[ROUTER] += n;
+            }
+            let same = after.bal == before.bal + to_vault
+                && after.pend == before.pend
+                && after.all == before.all
+                && after.burned == before.burned
+                && after.sup == before.sup
+                && after.lb == before.lb
+                && after.lpv == before.lpv
+                && after.ab == exp;
+            for p in ["C05", "C07"] {
+                mon.check(p, "vault_untouched_by_non_asset_ops", same, || ctx(&format!("expected balance {} and account balances {exp:?}", before.bal + to_vault)));
+            }
         }
         let (r0, r1) = (before.bal - before.pend.min(before.bal), after.bal - after.pend.min(after.bal));
         mon.check("C07", "vault_pending_le_balance", after.pend <= after.bal, || ctx("pending protocol fees exceed the balance"));
@@ -1191,9 +1340,15 @@ impl VaultEngine {
                 w.last_deposit = None;
             }
             "collect" => {
-                mon.check("C07", "vault_collect_exact", dcol == before.pend && after.pend == 0 && before.bal == after.bal + before.pend, || ctx("collect did not transfer exactly the pending fees"));
-                mon.check("C07", "vault_collect_keeps_reserves", r0 == r1 && before.sup == after.sup, || ctx("collect changed LP reserves"));
-                mon.check("C07", "vault_collect_only_collector", (0..6).filter(|i| *i != 4).all(|i| before.ab[i] == after.ab[i]), || ctx("collect paid someone else"));
+                // coins of the asset's denom attached to the message (sent by account 1) are a donation to the vault
+                mon.check("C07", "vault_collect_exact", dcol == before.pend && after.pend == 0 && before.bal + a_own == after.bal + before.pend, || ctx("collect did not transfer exactly the pending fees"));
+                mon.check("C07", "vault_collect_keeps_reserves", r0 + a_own == r1 && before.sup == after.sup, || ctx("collect changed LP reserves"));
+                mon.check(
+                    "C07",
+                    "vault_collect_only_collector",
+                    (0..6).filter(|i| *i != 4).all(|i| before.ab[i] == after.ab[i] + if i == sender { a_own } else { 0 }),
+                    || ctx("collect paid someone else"),
+                );
                 w.last_deposit = None;
             }
             "loan" | "rloan" => {
@@ -1201,7 +1356,9 @@ impl VaultEngine {
                 let (pf, ff, bf) = (fee_of(before.fees.0, n), fee_of(before.fees.1, n), fee_of(before.fees.2, n));
                 w.charged += pf;
                 w.burned_sum += bf;
-                mon.check("C06", "loan_balance_ge_fees", after.bal >= before.bal + pf + ff, || ctx("vault balance did not grow by protocol + flash-loan fee"));
+                // coins attached to the vault's own FlashLoan are in the vault before old_balance is read: they stay
+                let donated = if ws[0] == "loan" { a_own } else { 0 };
+                mon.check("C06", "loan_balance_ge_fees", after.bal >= before.bal + donated + pf + ff, || ctx("vault balance did not grow by protocol + flash-loan fee"));
                 mon.check("C06", "loan_fees_exact", after.all == before.all + pf && after.burned == before.burned + bf, || ctx("recorded fees differ from floor(share*loan)"));
                 mon.check("C06", "loan_burn_destroyed", before.asup == after.asup + bf, || ctx("burn fee did not leave circulation"));
                 mon.check("C06", "loan_no_mint", after.sup <= before.sup, || ctx("LP minted during a loan"));
@@ -1222,7 +1379,9 @@ impl VaultEngine {
                     if simple {
                         let pb = n + pf + ff + bf;
                         let mut exp = before.ab.clone();
-                        let mut router = before.ab[ROUTER] as i128 + n as i128;
+                        // coins of the asset's denom the initiator attached are the router's while the loan runs
+                        exp[i] -= a_own;
+                        let mut router = before.ab[ROUTER] as i128 + a_own as i128 + n as i128;
                         let mut paid = 0u128;
                         for a in &pl {
                             match a {
@@ -1253,6 +1412,29 @@ impl VaultEngine {
                             || ctx(&format!("router held {router} at CompleteLoan, quote {pb}: expected the vault to get exactly the quote and balances {exp:?}")),
                         );
                         mon.stat(if rest > 0 { "mon_rloan_profit_forwarded" } else { "mon_rloan_no_profit" });
+                        if stray.is_some() {
+                            // the property read on balances alone: the initiator's balance changes by exactly the payload's
+                            // profit (what the router held + loan + fundings - sends - payments - quote: the attached
+                            // coins are back with it), each vault gained exactly its retained fees (+ what the payload
+                            // paid in), the router holds nothing it did not hold before
+                            let profit = router - a_own as i128 - pb as i128;
+                            let d_init = after.ab[i] as i128 - before.ab[i] as i128
+                                + if i == 3 { pl.iter().map(|a| if let RAct::Fund(x) = a { *x as i128 } else { 0 }).sum::<i128>() } else { 0 }
+                                - pl.iter().map(|a| if let RAct::Out(t, x) = a { if *t == i { *x as i128 } else { 0 } } else { 0 }).sum::<i128>();
+                            mon.check("C06", "router_attached_coins_back_with_initiator", d_init == profit, || {
+                                ctx(&format!("initiator {i} attached {a_own} of the asset / {a_junk} ujunk: balance change {d_init}, payload profit {profit}"))
+                            });
+                            mon.check("C06", "router_vault_gains_only_retained_fees", after.bal == before.bal + pf + ff + paid, || {
+                                ctx(&format!("vault expected to gain protocol {pf} + flash-loan {ff} + paid in {paid}"))
+                            });
+                            mon.check("C06", "router_holds_nothing_new", after.ab[ROUTER] == 0 && after.junk[ROUTER] == before.junk[ROUTER] + a_junk, || {
+                                ctx("router balance after a loan with coins attached")
+                            });
+                            mon.stat("mon_rloan_ok_with_attached_coins_simple_payload");
+                        }
+                    }
+                    if a_own > 0 {
+                        mon.stat(if a_own > n { "mon_rloan_ok_attached_above_loan" } else if a_own + 10 >= pf + ff + bf && a_own <= pf + ff + bf + 10 { "mon_rloan_ok_attached_about_fee" } else if a_own == 1 { "mon_rloan_ok_attached_one" } else { "mon_rloan_ok_attached_other" });
                     }
                 }
             }
@@ -1273,9 +1455,21 @@ impl VaultEngine {
 
 impl Engine for VaultEngine {
     fn exec(&mut self, line: &str, mon: &mut Monitor) -> String {
-        let ws: Vec<&str> = line.split_whitespace().collect();
+        let mut ws: Vec<&str> = line.split_whitespace().collect();
         if ws.is_empty() {
             return "bad-op".into();
+        }
+        // a trailing `+<sel>:<amount>`: coins attached to the message on top of what it asks for
+        let mut stray: Stray = None;
+        if ws[0] != "init" && ws.last().map_or(false, |t| t.starts_with('+')) {
+            match parse_stray(ws[ws.len() - 1]) {
+                Some(x) => stray = Some(x),
+                None => return "bad-op".into(),
+            }
+            ws.pop();
+            if ws.is_empty() {
+                return "bad-op".into();
+            }
         }
         if ws[0] == "init" {
             // init vault kind=K p=.. f=.. b=.. bals=a,b,c,d,e,r
@@ -1304,11 +1498,11 @@ impl Engine for VaultEngine {
             return format!("ok {}", self.last.show());
         }
         let before = self.last.clone();
-        match self.exec_op(&ws, mon) {
+        match self.exec_op(&ws, stray, mon) {
             Err(()) => "bad-op".into(),
             Ok(ok) => {
                 let after = self.w.as_ref().unwrap().observe();
-                self.monitors(&ws, ok, &before, &after, mon);
+                self.monitors(&ws, stray, ok, &before, &after, mon);
                 self.last = after;
                 mon.stat(&format!("{}_{}", ws[0], if ok { "ok" } else { "err" }));
                 format!("{} {}", if ok { "ok" } else { "err" }, self.last.show())
@@ -1317,6 +1511,57 @@ impl Engine for VaultEngine {
     }
 
     fn next_op(&mut self, rng: &mut Rng, step: u64) -> Option<String> {
+        let line = self.gen_op(rng, step)?;
+        if step == 0 || line.contains(" +") {
+            return Some(line);
+        }
+        // any execute message can carry coins it does not ask for: about 5 % of the messages do
+        let op = line.split_whitespace().next().unwrap_or("");
+        if !STRAY_OPS.contains(&op) || !rng.chance(1, 20) {
+            return Some(line);
+        }
+        let w = self.w.as_ref()?;
+        let o = &self.last;
+        let sender: usize = match op {
+            "collect" => 1,
+            "setfees" | "toggles" => J_OWNER,
+            "loan" => 3,
+            _ => line.split_whitespace().nth(1).and_then(|x| x.parse().ok()).unwrap_or(0),
+        };
+        // the asset's own denom: mostly where the sender can hold it (native asset, accounts 0..3)
+        let own = if w.kind == 0 && sender < 4 { rng.chance(1, 2) } else { rng.chance(1, 8) };
+        let have = if own { o.ab.get(sender).copied().unwrap_or(0) } else { o.junk[sender] };
+        let amt = match rng.below(8) {
+            0 | 1 => 1,
+            2 | 3 => rng.u128() % 1000 + 1,
+            4 => have.max(1),
+            5 => have + 1,
+            _ => rng.u128() % have.max(1) + 1,
+        };
+        if op == "deposit" && own && w.kind == 0 && rng.chance(1, 2) {
+            // part of the deposit arrives as a second coin of the asset's denom: the two add up to the amount
+            let t: Vec<&str> = line.split_whitespace().collect();
+            let amount: u128 = t[2].parse().unwrap_or(0);
+            if amount > 1 {
+                let part = amt.min(amount - 1).max(1);
+                return Some(format!("deposit {} {amount} {} +0:{part}", t[1], amount - part));
+            }
+        }
+        if op == "deposit" && !own && rng.chance(1, 3) {
+            // coins of ANOTHER denom that would complete the announced amount: they must not count
+            let t: Vec<&str> = line.split_whitespace().collect();
+            let amount: u128 = t[2].parse().unwrap_or(0);
+            if amount > 1 {
+                let part = amt.min(amount - 1).max(1);
+                return Some(format!("deposit {} {amount} {} +1:{part}", t[1], amount - part));
+            }
+        }
+        Some(format!("{line} +{}:{amt}", if own { 0 } else { 1 }))
+    }
+}
+
+impl VaultEngine {
+    fn gen_op(&mut self, rng: &mut Rng, step: u64) -> Option<String> {
         if step == 0 {
             self.len = rng.range(6, 40);
             let kind = rng.below(2);
@@ -1504,9 +1749,35 @@ impl Engine for VaultEngine {
             return Some(format!("loan {n1} {}", show_acts(&cb)));
         }
         if rng.chance(27, 100) {
-            // through the vault router
-            let pl = gen_payload(rng, &o, n, pb, 0);
-            return Some(format!("rloan {who} {n} {}", show_racts(&pl)));
+            // through the vault router; one in five with coins ATTACHED to the router's FlashLoan message, mostly of
+            // the loaned asset's denom: 1, small, about the fee, larger than the loan, more than the initiator holds
+            let mut o2 = o.clone();
+            let mut suffix = String::new();
+            if rng.chance(1, 5) {
+                let fee = pb - n;
+                let have = o.ab[who];
+                let own = if w.kind == 0 { rng.chance(3, 4) } else { rng.chance(1, 8) };
+                let amt = match rng.below(9) {
+                    0 => 1,
+                    1 | 2 => rng.u128() % 1000 + 1,
+                    3 | 4 => (fee + rng.below(3) as u128).saturating_sub(1).max(1),
+                    5 | 6 => n + rng.u128() % 1000 + 1,
+                    7 => (fee / 2).max(1),
+                    _ => have + 1,
+                };
+                let amt = if own && rng.chance(9, 10) { amt.min(have.max(1)) } else { amt };
+                if own {
+                    if w.kind == 0 && amt <= have {
+                        // the router holds them while the payload runs: aim the funding at the payback boundary
+                        o2.ab[ROUTER] += amt;
+                    }
+                    suffix = format!(" +0:{amt}");
+                } else {
+                    suffix = format!(" +1:{amt}");
+                }
+            }
+            let pl = gen_payload(rng, &o2, n, pb, 0);
+            return Some(format!("rloan {who} {n} {}{suffix}", show_racts(&pl)));
         }
         let cb = gen_cb(rng, &o, n, pb, 0);
         Some(format!("loan {n} {}", show_acts(&cb)))
